@@ -76,13 +76,15 @@ GetOp(m, fd) ==
 
 (* iterate: row-major order over non-nil entries *)
 Positions == [i \in 1..(Rows * Cols) |-> <<(i - 1) \div Cols, (i - 1) % Cols>>]
-RECURSIVE Iter(_, _, _, _)
-Iter(m, i, remove, seen) ==      \* with removal of each visited entry, compaction disabled
-    IF i > Rows * Cols THEN [m |-> m, seen |-> seen]
+RECURSIVE IterS(_, _, _, _, _)
+IterS(m, i, remove, seen, stop) ==      \* with removal of each visited entry, compaction disabled; stop > 0: the callback
+                                        \* answers false at its stop-th visit and the walk ends there
+    IF i > Rows * Cols \/ (stop > 0 /\ Len(seen) = stop) THEN [m |-> m, seen |-> seen]
     ELSE LET p == Positions[i]
              x == IF m.rowAlloc[p[1]] THEN m.table[p[1]][p[2]] ELSE 0
-         IN IF x = 0 THEN Iter(m, i + 1, remove, seen)
-            ELSE Iter(IF remove THEN DelOp(m, x, TRUE) ELSE m, i + 1, remove, Append(seen, x))
+         IN IF x = 0 THEN IterS(m, i + 1, remove, seen, stop)
+            ELSE IterS(IF remove THEN DelOp(m, x, TRUE) ELSE m, i + 1, remove, Append(seen, x), stop)
+Iter(m, i, remove, seen) == IterS(m, i, remove, seen, 0)
 
 Set(m, lv, rt) ==
     /\ table' = m.table /\ rowAlloc' = m.rowAlloc /\ f2g' = m.f2g /\ cg' = m.cg
@@ -118,11 +120,19 @@ Iterate(remove) ==
     /\ LET x == Iter(M, 1, remove, <<>>) IN
        Set(x.m, IF remove THEN {} ELSE live, [op |-> "Iterate", remove |-> remove, seen |-> x.seen, before |-> live])
 
+\* a walk the callback ends early (a search): nothing is changed, and compaction is in force again afterwards -- the
+\* registry behaves exactly as if the walk had never happened
+IterateStop(k) ==
+    /\ ret = NoRet /\ k \in 1..Cardinality(live)
+    /\ LET x == IterS(M, 1, FALSE, <<>>, k) IN
+       Set(M, live, [op |-> "IterateStop", k |-> k, seen |-> x.seen, before |-> live])
+
 Norm == ret # NoRet /\ ret' = NoRet /\ UNCHANGED <<table, rowAlloc, f2g, cg, row, col, counts, live, depth>>
 
 Next == \/ Norm
         \/ \E fd \in Fds : Add(fd) \/ Del(fd) \/ Get(fd)
         \/ \E b \in BOOLEAN : Iterate(b)
+        \/ \E k \in 1..Cardinality(Fds) : IterateStop(k)
 
 Spec == Init /\ [][Next]_vars
 
@@ -140,6 +150,9 @@ Coherent == \A fd \in live : /\ fd \in DOMAIN f2g /\ f2g[fd] = cg[fd]
 RetOK == CASE ret.op = "Iterate" -> /\ {ret.seen[i] : i \in 1..Len(ret.seen)} = ret.before
                                     /\ Len(ret.seen) = Cardinality(ret.before)
                                     /\ (ret.remove => live = {} /\ Count(M) = 0 /\ row = 0 /\ col = 0)
+           [] ret.op = "IterateStop" -> /\ Len(ret.seen) = ret.k
+                                        /\ \A i, j \in 1..Len(ret.seen) : i # j => ret.seen[i] # ret.seen[j]
+                                        /\ {ret.seen[i] : i \in 1..Len(ret.seen)} \subseteq ret.before
            [] ret.op = "Get" -> ret.got = (IF ret.fd \in live THEN ret.fd ELSE 0)
            [] OTHER -> TRUE
 =============================================================================
